@@ -249,8 +249,9 @@ def recover(tree: ast.Module, src: str, rel: str, external_calls: set[str] | Non
     table = load_table().get(rel)
     if not table:
         return 0
-    from .normalize import eliminate_new_aliases, hoist_walrus, inline_new_helpers
-    n = hoist_walrus(tree) if ":=" in src else 0
+    from .normalize import desugar_match, eliminate_new_aliases, hoist_walrus, inline_new_helpers
+    n = desugar_match(tree) if "match " in src else 0
+    n += hoist_walrus(tree) if ":=" in src else 0
     n += inline_new_helpers(tree, set(table), external_calls or set())
     scopes = _function_scopes(tree)
     # inner scopes first: an outer rename then sees the final inner names when checking for capture
@@ -271,6 +272,12 @@ def recover(tree: ast.Module, src: str, rel: str, external_calls: set[str] | Non
             _rename_in_scope(sc.node, mapping)
             n += len(mapping)
             sc.locals = {mapping.get(x, x) for x in sc.locals}
+        if not sc.locals <= ref_names:
+            from .normalize import thread_decisions
+            t = thread_decisions(sc.node, ref_names)
+            if t:
+                n += t
+                sc.locals = ast_locals(sc.node)
         if not sc.locals <= ref_names:
             n += eliminate_new_aliases(sc.node, ref_names, set(sc.locals))
     return n
